@@ -214,6 +214,10 @@ def build(op, env, arrays=None):
     if t == "evreduce":  # reduction over event (output) dims
         a = env[op["a"]]
         return getattr(a, op["fn"])(op.get("axis"))
+    if t == "opeinsum":  # numpy-style einsum over the event (output) dims of the operands
+        from funsor.tensor import Einsum
+
+        return Einsum(op["equation"], *[env[p] for p in op["parts"]])
     if t == "approximate":  # exact under every exact interpretation
         return env[op["a"]].approximate(get_op(op["fn"]), env[op["b"]], frozenset(op["vars"]))
     if t == "reshape":
@@ -428,6 +432,8 @@ class Gen:
             if fn == "truediv" and self.may_be_zero(b):
                 fn = "mul"  # x/0 and 0/0 are arithmetic edges, not rewrite questions
             sa, sb = self.types[a].output.shape, self.types[b].output.shape
+            if self.family_name in ("ring", "tropical") and len(sa) == 1 and sa == sb and r.random() < 0.3:
+                return self.emit({"op": "opeinsum", "equation": r.choice(["a,a->", "a,a->a", "a,b->ab" if False else "a,a->"]), "parts": [a, b]})
             if self.family_name in ("ring", "tropical") and len(sa) == 1 and sa == sb and r.random() < 0.4:
                 fn = "matmul"  # inner product of two vector-valued terms
             return self.emit({"op": "binary", "fn": fn, "a": a, "b": b})
@@ -1163,6 +1169,26 @@ def corpus(r):
                 if kind in ("delta", "joint"):
                     g.emit({"op": "reduce_real", "fn": "logaddexp", "a": ind, "vars": ["x"]})
         out.append((g.program, "log"))
+    # 13. sums of two weighted Gaussians sharing a real input, marginalised (the mixture-times-mixture contraction)
+    g = Gen(r, family="log", max_event=0, real_vars=False)
+    b = r.choice(NAMES[:2])
+    leaves = []
+    for reals in ([["x", []]], [["x", []], ["z", []]]):
+        dim = len(reals)
+        nb = g.sizes[b]
+        leaves.append(
+            g.emit({"op": "gaussian", "batch": [[b, nb]], "reals": reals, "mats": [round(r.gauss(0, 1), 3) for _ in range(nb * dim * dim)], "locs": [round(r.gauss(0, 1), 3) for _ in range(nb * dim)]})
+        )
+    w1 = T(g, [b])
+    if all(leaves) and w1:
+        m1 = g.emit({"op": "binary", "fn": "add", "a": w1, "b": leaves[0]})
+        m2 = g.emit({"op": "binary", "fn": "add", "a": leaves[1], "b": w1})
+        if m1 and m2:
+            tot = g.emit({"op": "binary", "fn": "add", "a": m1, "b": m2})
+            if tot:
+                g.emit({"op": "reduce_real", "fn": "logaddexp", "a": tot, "vars": ["x"]})
+                g.emit({"op": "reduce_real", "fn": "logaddexp", "a": tot, "vars": ["x", "z"]})
+    out.append((g.program, "log"))
     # 12. reductions over variables the operand does not mention, alone and together with one it does,
     #     for every reduction op of the family (each interpretation has its own rule for the multiplicity)
     for fam in ("ring", "log", "tropical"):
